@@ -107,6 +107,19 @@ impl Default for GenCfg {
     }
 }
 
+/// the same grammar with 64..70 unused tokens declared FIRST (right after the `%start` line), so that
+/// every token the grammar really uses has an index beyond the first 64-bit word of a token bit vector
+/// (lookahead sets, FIRST/FOLLOW sets, `state_actions` … are `Vob`s)
+pub fn with_many_tokens(text: &str, rng: &mut Rng) -> String {
+    let k = 64 + rng.below(7);
+    let ks: Vec<String> = (0..k).map(|i| format!("K{}", i)).collect();
+    let decl = format!("%token {}\n", ks.join(" "));
+    match text.find('\n') {
+        Some(i) if text.starts_with("%start") => format!("{}{}{}", &text[..i + 1], decl, &text[i + 1..]),
+        _ => format!("{}{}", decl, text),
+    }
+}
+
 pub fn random_grammar(rng: &mut Rng, cfg: &GenCfg) -> AGrammar {
     let nrules = rng.range(1, cfg.max_rules);
     let ntoks = rng.range(1, cfg.max_toks);
